@@ -43,7 +43,7 @@ theorem contigLog_append (p : Pid) (t0 : Int) (log evs : List Ev) :
 
 /-- the walker run over the events of one poll ends at the new front's time -/
 theorem poll_ck (beh : Beh) (hb : PosBeh beh) (gt endT : Int) (force : Bool) (v : Store) (p : Pid)
-    (f : Front) (hlt : gt < endT) (hf : FrontOK gt f) :
+    (f : Front) (hf : FrontOK gt f) :
     (poll beh gt endT force v p f).evs.foldl (ck p) (some f.time) =
       some (poll beh gt endT force v p f).front.time := by
   have hpos := hb p f.nTs v
@@ -51,8 +51,9 @@ theorem poll_ck (beh : Beh) (hb : PosBeh beh) (gt endT : Int) (force : Bool) (v 
   unfold poll
   by_cases hpoll : f.time ≤ gt
   · simp only [hpoll, if_true]
-    cases hp : f.pending <;> cases hs : f.sticky <;> simp only [hp, hs] at hf <;>
-      simp only [pollWith] <;> (repeat' split) <;> simp [List.foldl, ck] <;> omega
+    cases force <;> cases hp : f.pending <;> cases hs : f.sticky <;> simp only [hp, hs] at hf <;>
+      simp only [pollWith, Bool.false_and, Bool.true_and, decide_eq_true_eq, Bool.false_eq_true, if_false] <;>
+      (repeat' split) <;> simp [List.foldl, ck] <;> omega
   · simp [hpoll]
 
 theorem poll_quiet_time (beh : Beh) (gt endT : Int) (force : Bool) (v : Store) (p : Pid) (f : Front)
@@ -113,7 +114,7 @@ theorem filter_mine_applies (p : Pid) (A : List Ev) (hA : ∀ e ∈ A, ∃ q t d
 /-- a pass (or the part of it) that only polls and carries: contiguity is kept, for any new clock
 value `gt'` not before the old one -/
 theorem contig_quiet_branch (c : Cfg) (hb : PosBeh c.beh) (t0 endT : Int) (force : Bool) (s : St)
-    (hinv : Inv s) (hlt : s.gt < endT) (hnd : NodupPids s) (hc : Contig t0 s) (gt' : Int) (hge : s.gt ≤ gt') :
+    (hinv : Inv s) (hnd : NodupPids s) (hc : Contig t0 s) (gt' : Int) (hge : s.gt ≤ gt') :
     ∀ pf' ∈ (s.fronts.map (fun pf => (pf.1, poll c.beh s.gt endT force s.store pf.1 pf.2))).map
         (fun po => (po.1, settle gt' po.2)),
       contigLog pf'.1 t0 (s.log ++
@@ -128,7 +129,7 @@ theorem contig_quiet_branch (c : Cfg) (hb : PosBeh c.beh) (t0 endT : Int) (force
   rw [List.append_assoc, contigLog_append, List.filter_append, List.foldl_append,
     pollEvs_filter c endT force s hnd p f hmem, skipEvs_filter c endT gt' force s hnd p f hmem,
     hc (p, f) hmem]
-  have h1 := poll_ck c.beh hb s.gt endT force s.store p f hlt (hinv _ hmem)
+  have h1 := poll_ck c.beh hb s.gt endT force s.store p f (hinv _ hmem)
   unfold pollOf
   simp only
   rw [h1]
@@ -136,17 +137,18 @@ theorem contig_quiet_branch (c : Cfg) (hb : PosBeh c.beh) (t0 endT : Int) (force
   have := poll_quiet_time c.beh s.gt endT force s.store p f hq
   omega
 
-/-- **One pass of the loop preserves contiguity.** -/
-theorem iter_contig (c : Cfg) (hb : PosBeh c.beh) (t0 endT : Int) (force : Bool) (s : St)
-    (hinv : Inv s) (hlt : s.gt < endT) (hnd : NodupPids s) (hc : Contig t0 s) :
+/-- **One pass of the loop preserves contiguity** — any pass that does not move the clock backwards (the
+zero-length forced pass included: since fix F50 it hands out no empty interval). -/
+theorem iter_contig' (c : Cfg) (hb : PosBeh c.beh) (t0 endT : Int) (force : Bool) (s : St)
+    (hinv : Inv s) (hle : s.gt ≤ endT) (hadv : s.gt ≤ (iter c endT force s).gt)
+    (hnd : NodupPids s) (hc : Contig t0 s) :
     Contig t0 (iter c endT force s) := by
-  have hadv := (iter_inv c hb endT force s (by omega) hinv hlt).2.1
   have hpolled : ∀ p f, (p, f) ∈ s.fronts →
       (pollOf c endT force s (p, f)).evs.foldl (ck p) (contigLog p t0 s.log) =
         some (pollOf c endT force s (p, f)).front.time := by
     intro p f hmem
     rw [hc (p, f) hmem]
-    exact poll_ck c.beh hb s.gt endT force s.store p f hlt (hinv _ hmem)
+    exact poll_ck c.beh hb s.gt endT force s.store p f (hinv _ hmem)
   have hquiet : ∀ p f, (p, f) ∈ s.fronts → (pollOf c endT force s (p, f)).quiet = true →
       (pollOf c endT force s (p, f)).front.time ≤ s.gt := by
     intro p f _
@@ -156,7 +158,7 @@ theorem iter_contig (c : Cfg) (hb : PosBeh c.beh) (t0 endT : Int) (force : Bool)
   cases hfs : fullStep (s.fronts.map (fun pf => (pf.1, poll c.beh s.gt endT force s.store pf.1 pf.2))) with
   | none =>
     simp only [hfs] at hadv ⊢
-    exact contig_quiet_branch c hb t0 endT force s hinv hlt hnd hc _ (Int.le_of_lt hadv)
+    exact contig_quiet_branch c hb t0 endT force s hinv hnd hc _ hadv
   | some d =>
     simp only [hfs] at hadv ⊢
     split
@@ -188,7 +190,14 @@ theorem iter_contig (c : Cfg) (hb : PosBeh c.beh) (t0 endT : Int) (force : Bool)
       rw [clearDue_time]
       rfl
     · rename_i hstep
-      exact contig_quiet_branch c hb t0 endT force s hinv hlt hnd hc endT (by omega)
+      exact contig_quiet_branch c hb t0 endT force s hinv hnd hc endT (by omega)
+
+/-- **One pass of the loop preserves contiguity** (a pass before the end time) -/
+theorem iter_contig (c : Cfg) (hb : PosBeh c.beh) (t0 endT : Int) (force : Bool) (s : St)
+    (hinv : Inv s) (hlt : s.gt < endT) (hnd : NodupPids s) (hc : Contig t0 s) :
+    Contig t0 (iter c endT force s) :=
+  iter_contig' c hb t0 endT force s hinv (by omega)
+    (Int.le_of_lt (iter_inv c hb endT force s (by omega) hinv hlt).2.1) hnd hc
 
 theorem init_contig (c : Cfg) (t0 : Int) (pids : List Pid) (layers : List (List Sid)) (store : Store) :
     Contig t0 (init c t0 pids layers store) := by
